@@ -163,7 +163,9 @@ impl History for MatrixEngine {
             _ => 3,
         };
         if size_class == 3 && width != Width::U8 {
-            size_class = 2;
+            // wider index types: now and then several hundred nodes (beyond the 256 a u8 graph can
+            // reach), with the matrix growing in jumps of every size
+            size_class = if rng.chance(1, 3) && !self.visit { 4 } else { 2 };
         }
         let mut disabled = 0u32;
         for k in 5..=18u32 {
@@ -174,7 +176,7 @@ impl History for MatrixEngine {
         let base = if tier == Tier::Thorough { 30 } else { 20 };
         let len = match size_class {
             2 => rng.range(20, 120),
-            3 => rng.range(6, 30),
+            3 | 4 => rng.range(6, 30),
             _ => rng.geometric(1, base, 90),
         };
         (
@@ -220,7 +222,8 @@ fn max_nodes(cfg: &Cfg) -> usize {
         0 => 4,
         1 => 10,
         2 => 70,
-        _ => 255,
+        3 => 255,
+        _ => 600,
     }
 }
 
@@ -251,6 +254,12 @@ fn pick_pair(rng: &mut Rng, m: &Model) -> Option<(usize, usize)> {
 fn gen_op(rng: &mut Rng, cfg: &Cfg, m: &Model, step: usize) -> Op {
     if cfg.size_class == 3 && step == 0 {
         return Op::BulkNodes(rng.range(248, 256));
+    }
+    if cfg.size_class == 4 && step == 0 {
+        return Op::BulkNodes(*rng.pick(&[258usize, 300, 400, 520]));
+    }
+    if cfg.size_class == 4 && step == 1 {
+        return Op::BulkEdges { k: rng.range(5, 40), seed: rng.next_u64() };
     }
     if cfg.size_class >= 2 && step == 1 {
         return Op::BulkEdges { k: rng.range(5, 60), seed: rng.next_u64() };
@@ -469,6 +478,24 @@ fn observe<Ty: EdgeType + DirExt<Null, Ix>, Null: Nullable<Wrapped = u32>, Ix: I
             let got: Vec<(usize, u32)> = ei.iter().map(|&(x, y, w)| (if x == a { y } else { x }, w)).collect();
             let expi: Vec<(usize, u32)> = pred.iter().map(|&b| (b, m.weight(b, a).unwrap())).collect();
             ensure!("edges_directed_incoming", sorted(&got) == sorted(&expi), "edges_directed({}, Incoming) = {:?}, model predecessors {:?}", a, ei, expi);
+        }
+    }
+    if obs_rng.chance(1, 3) {
+        use crate::engines::iter_protocol as ip;
+        let salt = obs_rng.next_u64();
+        let res = (|| -> Result<(), String> {
+            ip("node_identifiers()", || g.node_identifiers(), |n| n.index(), salt)?;
+            ip("node_references()", || g.node_references(), |r| (r.0.index(), *r.1), salt)?;
+            ip("edge_references()", || g.edge_references(), |e| (e.source().index(), e.target().index(), *e.weight()), salt)?;
+            if !mids.is_empty() {
+                let a = mids[(salt % mids.len() as u64) as usize];
+                ip(&format!("neighbors({})", a), || g.neighbors(ix(a)), |n| n.index(), salt)?;
+                ip(&format!("edges({})", a), || g.edges(ix(a)), |e| (e.0.index(), e.1.index(), *e.2), salt)?;
+            }
+            Ok(())
+        })();
+        if let Err(e) = res {
+            return Err(("iterator-protocol", e));
         }
     }
     // pairs
@@ -818,7 +845,7 @@ fn run<Ty: EdgeType + DirExt<Null, Ix> + Clone, Null: NullExt, Ix: IndexType>(na
                 }
             }
             Op::BulkNodes(k) => {
-                for _ in 0..(*k).min(300) {
+                for _ in 0..(*k).min(600) {
                     if max_index != usize::MAX && m.nodes.len() >= max_index {
                         break;
                     }
@@ -841,9 +868,13 @@ fn run<Ty: EdgeType + DirExt<Null, Ix> + Clone, Null: NullExt, Ix: IndexType>(na
                 let mut r = Rng::new(*seed);
                 let ids: Vec<usize> = m.nodes.keys().copied().collect();
                 if !ids.is_empty() {
-                    for _ in 0..(*k).min(200) {
-                        let a = ids[r.below(ids.len())];
-                        let b = ids[r.below(ids.len())];
+                    // in a large graph the endpoints come from a growing prefix of the ids, so the
+                    // matrix is extended in several jumps of different sizes instead of one
+                    let stride = 1 + r.below(48);
+                    for j in 0..(*k).min(200) {
+                        let lim = if ids.len() > 256 { (4 + j * stride).min(ids.len()) } else { ids.len() };
+                        let a = ids[r.below(lim)];
+                        let b = ids[r.below(lim)];
                         let w = fresh();
                         let old = m.weight(a, b);
                         match catch(|| g.update_edge(ix(a), ix(b), w)) {
@@ -892,5 +923,83 @@ fn run<Ty: EdgeType + DirExt<Null, Ix> + Clone, Null: NullExt, Ix: IndexType>(na
         acc.state(m.hash());
         step += 1;
     }
+    if cfg.obs_seed % 4 == 1 && m.high_water <= 40 {
+        // the final graph once more with NotZero slots over other weight types: every weight that
+        // is not exactly zero is an edge, however small or negative
+        acc.probe("matrix_notzero_weight_types_mirror");
+        let r = catch(|| -> Result<(), (&'static str, String)> {
+            notzero_mirror::<Ty, f64>(&m, "f64", &[1e-18, -1e-300, f64::MIN_POSITIVE, 5e-324, 1.0, -0.5, 1e300, f64::EPSILON / 4.0, -f64::EPSILON / 3.0, f64::INFINITY])?;
+            notzero_mirror::<Ty, f32>(&m, "f32", &[1e-20, -1e-38, f32::MIN_POSITIVE, 1e-45, 1.0, -0.5, 1e38, f32::EPSILON / 4.0, -f32::EPSILON / 3.0, f32::NEG_INFINITY])?;
+            notzero_mirror::<Ty, i64>(&m, "i64", &[1, -1, i64::MIN, i64::MAX, 2, -2, 1 << 40, -(1 << 33), 255, 256])?;
+            notzero_mirror::<Ty, i8>(&m, "i8", &[1, -1, i8::MIN, i8::MAX, 2, -2, 64, -64, 100, -100])
+        });
+        match r {
+            Ok(Ok(())) => {}
+            Ok(Err((c, d))) => bail!("notzero_weight_types", c, "{}", d),
+            Err(p) => bail!("notzero_weight_types", "panic", "a MatrixGraph with NotZero slots holding the final graph of this run panicked: {}", p),
+        }
+    }
     Exec { violation: None, nontrivial: nontrivial!() }
+}
+
+fn notzero_mirror<Ty: EdgeType, W>(m: &Model, tname: &str, table: &[W]) -> Result<(), (&'static str, String)>
+where
+    W: petgraph::matrix_graph::Zero + Copy + PartialEq + std::fmt::Debug,
+{
+    macro_rules! ensure {
+        ($name:expr, $cond:expr, $($arg:tt)*) => {
+            if !($cond) { return Err(($name, format!("[NotZero<{}>] {}", tname, format!($($arg)*)))); }
+        };
+    }
+    let mut g: MatrixGraph<u32, W, SimBuildHasher, Ty, NotZero<W>, u16> = MatrixGraph::with_capacity_and_hasher(0, SimBuildHasher { seed: 7, mode: 0 });
+    let ix = |a: usize| NodeIndex::<u16>::new(a);
+    for a in 0..m.high_water {
+        g.add_node(a as u32);
+    }
+    for a in 0..m.high_water {
+        if !m.nodes.contains_key(&a) {
+            g.remove_node(ix(a));
+        }
+    }
+    let wt = |w: u32| table[(w as usize) % table.len()];
+    for (&(a, b), &w) in &m.edges {
+        g.add_edge(ix(a), ix(b), wt(w));
+    }
+    let check = |g: &MatrixGraph<u32, W, SimBuildHasher, Ty, NotZero<W>, u16>, wt: &dyn Fn(u32) -> W, stage: &str| -> Result<(), (&'static str, String)> {
+        ensure!("edge_count", g.edge_count() == m.edges.len(), "{}: edge_count() = {}, expected {}", stage, g.edge_count(), m.edges.len());
+        let listed = g.edge_references().count();
+        ensure!("edge_references", listed == m.edges.len(), "{}: edge_references() yields {} edges, expected {}", stage, listed, m.edges.len());
+        for (&(a, b), &w) in &m.edges {
+            ensure!("has_edge", g.has_edge(ix(a), ix(b)), "{}: has_edge({}, {}) is false for an edge of weight {:?}", stage, a, b, wt(w));
+            ensure!("edge_weight", g.get_edge_weight(ix(a), ix(b)).copied() == Some(wt(w)), "{}: get_edge_weight({}, {}) = {:?}, expected {:?}", stage, a, b, g.get_edge_weight(ix(a), ix(b)), wt(w));
+        }
+        for &a in m.nodes.keys() {
+            let n = g.neighbors(ix(a)).count();
+            ensure!("neighbors", n == m.succ(a).len(), "{}: neighbors({}) yields {} nodes, expected {}", stage, a, n, m.succ(a).len());
+            for &b in m.nodes.keys() {
+                if m.weight(a, b).is_none() {
+                    ensure!("has_edge", !g.has_edge(ix(a), ix(b)), "{}: has_edge({}, {}) is true although there is no such edge", stage, a, b);
+                    ensure!("edge_weight", g.get_edge_weight(ix(a), ix(b)).is_none(), "{}: get_edge_weight({}, {}) = {:?} although there is no such edge", stage, a, b, g.get_edge_weight(ix(a), ix(b)));
+                }
+            }
+        }
+        Ok(())
+    };
+    check(&g, &wt, "after add_edge")?;
+    // rewrite every weight through the mutable accessors with the next value of the table
+    let wt2 = |w: u32| table[(w as usize + 1) % table.len()];
+    for (&(a, b), &w) in &m.edges {
+        match g.get_edge_weight_mut(ix(a), ix(b)) {
+            Some(x) => *x = wt2(w),
+            None => ensure!("edge_weight_mut", false, "get_edge_weight_mut({}, {}) is None for an existing edge", a, b),
+        }
+    }
+    check(&g, &wt2, "after rewriting the weights")?;
+    // update_edge returns the old weight
+    for (&(a, b), &w) in &m.edges {
+        let old = g.update_edge(ix(a), ix(b), wt(w));
+        ensure!("update_edge", old == Some(wt2(w)), "update_edge({}, {}) returned {:?}, the weight was {:?}", a, b, old, wt2(w));
+    }
+    check(&g, &wt, "after update_edge")?;
+    Ok(())
 }
